@@ -168,14 +168,34 @@ class Workspace:
         else:
             self.n += 1
             base = os.path.join(self.root, "w%d" % (self.n % 50))
-        shutil.rmtree(base, ignore_errors=True)
-        for name, lines in files.items():
+        # files that are already there with the same content (the fragments most scenarios of a check share) are
+        # left alone; a directory somebody else wrote into (symbolic links, see run_real) is rebuilt
+        cache = self.__dict__.setdefault("_content", {})
+        prev = cache.get(base)
+        if prev is None:
+            shutil.rmtree(base, ignore_errors=True)
+            prev = {}
+        new = {name: tuple(str(l) for l in lines) for name, lines in files.items()}
+        for name in prev:
+            if name not in new:
+                try:
+                    os.remove(os.path.join(base, name))
+                except OSError:
+                    pass
+        for name, lines in new.items():
+            if prev.get(name) == lines:
+                continue
             p = os.path.join(base, name)
             os.makedirs(os.path.dirname(p), exist_ok=True)
             with open(p, "w", encoding="utf-8", newline="") as f:
                 f.write("".join(l + "\n" for l in lines))
+        cache[base] = new
         self._last, self._last_base = files, base
         return base
+
+    def touched(self, base):
+        """The directory was changed behind materialise's back: build it afresh next time."""
+        self.__dict__.setdefault("_content", {}).pop(base, None)
 
 
 def url_to_name(url, base):
@@ -203,6 +223,7 @@ def run_real(ws, schema, rec, item, loader_factory=None):
         os.makedirs(os.path.dirname(real), exist_ok=True)
         os.replace(main, real)
         os.symlink(real, main)
+        ws.touched(base)
     ovs = list(item["opts"])
     try:
         if loader_factory is not None:
